@@ -35,4 +35,4 @@ Definition lv_code (c : lv_case) : nat :=
   else 0.
 
 Definition lv_failing (cs : list lv_case) : list nat :=
-  flat_map (fun c => match lv_code c with 0 => [] | k => [lc_idx c * 8 + k] end) cs.
+  flat_map (fun c => match lv_code c with 0 => [] | k => [lc_idx c * 16 + k] end) cs.
